@@ -2,6 +2,7 @@ package seq
 
 import (
 	"fmt"
+	"math"
 	"testing"
 
 	age "github.com/craterdog/go-collection-framework/v4/agent"
@@ -178,6 +179,7 @@ type snapCase struct {
 	Pre       int      `json:"pre"`       // moves of the first iterator before the mutation
 	Mutations []string `json:"mutations"` // names resolved per kind
 	Other     []itMove `json:"other"`     // moves of a second iterator in between
+	NaN       bool     `json:"nan,omitempty"` // Catalog and Map: the second key is a NaN (a key no lookup finds)
 }
 
 var kindMutations = map[string][]string{
@@ -196,6 +198,9 @@ func genSnapCase(maxMut int, random bool) func(core.Source) snapCase {
 	return func(s core.Source) snapCase {
 		c := snapCase{Kind: core.Pick(s, snapKinds, "kind")}
 		c.Size = s.Choose(pickInt(random, 6, 4), "size")
+		if c.Kind == "Catalog" || c.Kind == "Map" {
+			c.NaN = s.Choose(3, "nan-key") == 0
+		}
 		c.Pre = s.Choose(c.Size+1, "pre")
 		n := 1 + s.Choose(maxMut, "nmut")
 		for i := 0; i < n; i++ {
@@ -226,7 +231,7 @@ func intItems(xs []int) []snapItem {
 
 type snapItem struct {
 	val   int
-	key   int
+	key   uint64 // bits of the float64 key
 	ident any
 }
 
@@ -256,12 +261,12 @@ func execSnapCase(c snapCase, _ core.Source) (res core.Result) {
 				return snapItem{val: it.GetPrevious()}, true
 			}, it.GetSize, it
 	}
-	wrapAssoc := func(it age.IteratorLike[col.AssociationLike[int, int]], identity bool) (func() (snapItem, bool), func() (snapItem, bool), func() int, any) {
-		conv := func(a col.AssociationLike[int, int]) snapItem {
+	wrapAssoc := func(it age.IteratorLike[col.AssociationLike[float64, int]], identity bool) (func() (snapItem, bool), func() (snapItem, bool), func() int, any) {
+		conv := func(a col.AssociationLike[float64, int]) snapItem {
 			if identity {
 				return snapItem{ident: a}
 			}
-			return snapItem{key: a.GetKey(), val: a.GetValue()}
+			return snapItem{key: math.Float64bits(a.GetKey()), val: a.GetValue()}
 		}
 		return func() (snapItem, bool) {
 				if !it.HasNext() {
@@ -276,6 +281,7 @@ func execSnapCase(c snapCase, _ core.Source) (res core.Result) {
 			}, it.GetSize, it
 	}
 	fresh := 1000
+	var expected []snapItem // Catalog and Map: the (key, value) pairs the collection was filled with
 	switch c.Kind {
 	case "Array", "List":
 		var arr col.ArrayLike[int]
@@ -401,16 +407,21 @@ func execSnapCase(c snapCase, _ core.Source) (res core.Result) {
 			}
 		}
 	case "Catalog", "Map":
-		var assoc assocLike[int]
-		var cat col.CatalogLike[int, int]
+		var assoc assocLike[float64, int]
+		var cat col.CatalogLike[float64, int]
 		if c.Kind == "Catalog" {
-			cat = col.Catalog[int, int](n).Make()
+			cat = col.Catalog[float64, int](n).Make()
 			assoc = cat
 		} else {
-			assoc = col.Map[int, int](n).Make()
+			assoc = col.Map[float64, int](n).Make()
 		}
 		for i, v := range vals {
-			assoc.SetValue(i+1, v)
+			key := float64(i + 1)
+			if c.NaN && i == 1 {
+				key = math.NaN()
+			}
+			assoc.SetValue(key, v)
+			expected = append(expected, snapItem{key: math.Float64bits(key), val: v})
 		}
 		newIter = func() (func() (snapItem, bool), func() (snapItem, bool), func() int, any) {
 			return wrapAssoc(assoc.GetIterator(), c.Kind == "Catalog")
@@ -421,7 +432,7 @@ func execSnapCase(c snapCase, _ core.Source) (res core.Result) {
 				if c.Kind == "Catalog" {
 					out = append(out, snapItem{ident: a})
 				} else {
-					out = append(out, snapItem{key: a.GetKey(), val: a.GetValue()})
+					out = append(out, snapItem{key: math.Float64bits(a.GetKey()), val: a.GetValue()})
 				}
 			}
 			return out
@@ -431,7 +442,7 @@ func execSnapCase(c snapCase, _ core.Source) (res core.Result) {
 			keys := assoc.GetKeys().AsArray()
 			switch name {
 			case "SetNew":
-				assoc.SetValue(fresh, fresh)
+				assoc.SetValue(float64(fresh), fresh)
 			case "SetExisting":
 				if len(keys) > 0 && c.Kind == "Map" {
 					assoc.SetValue(keys[0], fresh)
@@ -451,7 +462,7 @@ func execSnapCase(c snapCase, _ core.Source) (res core.Result) {
 			case "RemoveAll":
 				assoc.RemoveAll()
 			case "SortDesc":
-				cat.SortValuesWithRanker(func(a, b col.AssociationLike[int, int]) age.Rank { return rankOfInts(b.GetKey(), a.GetKey()) })
+				cat.SortValuesWithRanker(func(a, b col.AssociationLike[float64, int]) age.Rank { return rankOfInts(b.GetValue(), a.GetValue()) })
 			case "Reverse":
 				cat.ReverseValues()
 			case "Shuffle":
@@ -470,8 +481,31 @@ func execSnapCase(c snapCase, _ core.Source) (res core.Result) {
 		}
 		snapshot = append(snapshot, x)
 	}
-	if c.Kind == "Map" {
-		// a map's iteration order is unspecified and may differ between two views: compare as a set
+	// the enumeration is the content the collection was given (a map's iteration order is unspecified: as a multiset)
+	if c.Kind == "Catalog" || c.Kind == "Map" {
+		var got []snapItem
+		for _, x := range snapshot {
+			if a, ok := x.ident.(col.AssociationLike[float64, int]); ok {
+				x = snapItem{key: math.Float64bits(a.GetKey()), val: a.GetValue()}
+			}
+			got = append(got, x)
+		}
+		ok := len(got) == len(expected)
+		used := make([]bool, len(expected))
+		for _, x := range got {
+			found := false
+			for j, y := range expected {
+				if !used[j] && x == y && (c.Kind == "Map" || j == len(used)-countFalse(used)) {
+					used[j], found = true, true
+					break
+				}
+			}
+			ok = ok && found
+		}
+		if !ok {
+			res.Violation = core.Violate("C17/snapshot/content/"+c.Kind, "%s filled with the (key bits, value) pairs %v: its iterator enumerates %v", c.Kind, expected, got)
+			return
+		}
 	}
 	next1, prev1, size1, _ := newIter()
 	next2, prev2, _, raw2 := newIter()
@@ -570,10 +604,10 @@ func execSnapCase(c snapCase, _ core.Source) (res core.Result) {
 				s += " "
 			}
 			if x.ident != nil {
-				a := x.ident.(col.AssociationLike[int, int])
-				s += fmt.Sprintf("%d:%d@%p", a.GetKey(), a.GetValue(), a)
+				a := x.ident.(col.AssociationLike[float64, int])
+				s += fmt.Sprintf("%v:%d@%p", a.GetKey(), a.GetValue(), a)
 			} else if c.Kind == "Map" {
-				s += fmt.Sprintf("%d:%d", x.key, x.val)
+				s += fmt.Sprintf("%v:%d", math.Float64frombits(x.key), x.val)
 			} else {
 				s += fmt.Sprint(x.val)
 			}
@@ -619,6 +653,9 @@ func execSnapCase(c snapCase, _ core.Source) (res core.Result) {
 	}
 	res.NonTrivial = mutatedBetween && c.Size > 0 && c.Pre < c.Size
 	res.Classes = append(res.Classes, "kind-"+c.Kind)
+	if c.NaN && c.Size >= 2 {
+		res.Classes = append(res.Classes, "NaN-key")
+	}
 	if len(c.Other) > 0 {
 		res.Classes = append(res.Classes, "second-iterator-moved")
 	}
@@ -632,4 +669,14 @@ func TestC17(t *testing.T) {
 	core.Rapid(r, core.Check[cursorCase]{Name: "random-walks", Gen: genCursorCase(50, 200, true), Exec: execCursorCase}, r.N(1000, 10000))
 	core.DFS(r, core.Check[snapCase]{Name: "snapshot-small", Gen: genSnapCase(r.N(2, 3), false), Exec: execSnapCase, NoJournal: true}, 0)
 	core.Rapid(r, core.Check[snapCase]{Name: "snapshot-random", Gen: genSnapCase(5, true), Exec: execSnapCase}, r.N(2100, 20000))
+}
+
+func countFalse(xs []bool) int {
+	n := 0
+	for _, x := range xs {
+		if !x {
+			n++
+		}
+	}
+	return n
 }
